@@ -156,10 +156,16 @@ def make_backend(kind, sim, n_workers):
             sim.sp("configure")
             return n_workers
 
+        _epoch = 0
+
         def submit(self, func, callback=None):
             job = _Job()
+            epoch = self._epoch          # a submission that races with abort_everything is cancelled by it
 
             def runner():
+                if kind != "stub_noabort" and self._epoch != epoch:
+                    sim.n_tasks_finished += 1
+                    return
                 try:
                     sim.sp("task")
                     out = ("ok", func())
@@ -196,6 +202,7 @@ def make_backend(kind, sim, n_workers):
         def abort_everything(self, ensure_ready=True):
             sim.sp("abort")
             if kind != "stub_noabort":
+                self._epoch += 1
                 sim.drop_pending()
 
         def batch_completed(self, batch_size, duration):
